@@ -173,6 +173,18 @@ def run(ctx):
         for order in orders:
             jobs.append({"n_points": 3, "n_samples": 2, "chains": chains, "order": list(order), "cmds": cmds})
             meta.append((ti, chains, order))
+    # wide traces: more than ten chains (chain numbers of different digit counts, stored in completion order) and long chains
+    for wi in range(6 if ctx.quick else 40):
+        n_chains = ctx.rng.randint(11, 14)
+        pool = ctx.rng.sample(specs, ctx.rng.randint(2, 4))
+        chains = {c: [(ctx.rng.choice([-1, -2, -3, -4, -5]), ctx.rng.choice(pool), (ctx.rng.choice(["plain", "perm", "relabel"]), ctx.rng.randrange(10**6))) for _ in range(ctx.rng.randint(1, 2))] for c in range(n_chains)}
+        if wi % 3 == 0:
+            chains[ctx.rng.randrange(n_chains)] = [(ctx.rng.choice([-1, -2, -3]), ctx.rng.choice(pool), ("perm", ctx.rng.randrange(10**6))) for _ in range(ctx.rng.randint(260, 300) if wi == 0 else 40)]
+        for _ in range(2):
+            order = list(chains)
+            ctx.rng.shuffle(order)
+            jobs.append({"n_points": 3, "n_samples": 2, "chains": chains, "order": list(order), "cmds": cmds})
+            meta.append((n_traces + wi, chains, tuple(order)))
     ctx.log("%d trace files (%d base traces)" % (len(jobs), n_traces))
     outs = tf.run_jobs(jobs, workers=4)
     ctx.log("commands done")
